@@ -1,5 +1,5 @@
 """C08 — SIMD vector types behave as independent scalar lanes: instance generator."""
-from vf.core import Unit, Case, std_configs, chunks
+from vf.core import Unit, Case, Config, ALL_ISAS, std_configs, chunks
 
 TYPES = {"f": "float", "d": "double", "i": "int", "l": "int64_t", "cf": "std::complex<float>", "cd": "std::complex<double>"}
 ABIS = {"scalar": "Fastor::simd_abi::scalar", "sse": "Fastor::simd_abi::sse", "avx": "Fastor::simd_abi::avx", "avx512": "Fastor::simd_abi::avx512",
@@ -34,7 +34,14 @@ def plan(tier, seed, rng):
                 cases.append(Case(cid, 'VF_CASE("%s", c08::vec<%s,%s,%d>)' % (cid, t, a, op), dict(type=t, abi=a, op=on), size=op))
     units = []
     n = 300 if tier == "quick" else 3000
-    for cfg in std_configs(tier, seed, extra=("-ffp-contract=off",)):
+    cfgs = std_configs(tier, seed, extra=("-ffp-contract=off",))
+    # this property IS the per-ISA property and its instances are cheap: the quick tier covers all six ISA flag sets, not a seeded subset
+    # (a seeded defect living in the non-FMA AVX branch was only caught under the seeds that happened to draw -mavx)
+    have = {c.isa for c in cfgs if c.opt == "-O2" and c.asserts}
+    for isa in ALL_ISAS:
+        if isa not in have:
+            cfgs.append(Config(isa, "c++14", "-O2", True, "g++", (), ("-ffp-contract=off",)))
+    for cfg in cfgs:
         for ch in chunks(cases, 60):
             units.append(Unit("C08", cfg, ch, ["props/c08.h"], max_success=n, size_floor=40))
     return units
